@@ -81,7 +81,7 @@ def main():
             envc = dict(os.environ, VERIF_REPO=wt, VERIF_SEED=args.seed)
             r = sh([os.path.join(VERIF, "check"), p, "--tier", args.tier, "--no-evidence"], env=envc,
                    timeout=7200)
-            keys = re.findall(r"key=(\S+)", r.stdout)
+            keys = re.findall(r"key=(C\d\d/\S+)", r.stdout)
             wall = re.search(r"wall=([\d.]+)s", r.stdout)
             print("SEED %s property=%s check=%s tier=%s rc=%d detected=%s wall=%s keys=%s %s" % (
                 os.path.relpath(d, VERIF), prop, p, args.tier, r.returncode,
